@@ -76,7 +76,9 @@ func unescape(s string) (string, error) {
 	}
 
 	var t strings.Builder
-	t.Grow(len(s) - 2*count)
+	if n := len(s) - 2*count; n > 0 {
+		t.Grow(n)
+	}
 
 	for i := uint(0); i < uint(len(s)); i++ {
 		switch s[i] {
